@@ -99,6 +99,8 @@ def run_one(name, tier):
                                       "replay_summary": rp, "wall_s": round(time.time() - t0, 1)}
     finally:
         sh("git -C /repo worktree remove --force %s" % wt)
+        # the run regenerated lean/MdsVerif/Gen from the patched tree: restore it from /repo
+        sh("cd %s/extract && go build -o /tmp/seeded-extract . && /tmp/seeded-extract -repo /repo -out %s/lean/MdsVerif/Gen; rm -f /tmp/seeded-extract" % (V, V))
     res["caught"] = any(c["caught"] for c in res["checks"].values())
     json.dump(res, open(os.path.join(d, "result.json"), "w"), indent=1)
     print("%-28s %s" % (name, "CAUGHT" if res["caught"] else "MISSED"), {k: (v["exit"], v["wall_s"]) for k, v in res["checks"].items()})
